@@ -78,10 +78,10 @@ Definition writer_started (cfg : fscfg) (w : writer) : Prop :=
   end.
 
 Lemma mk_writer_started : forall cfg names kind k chunks w,
-  plain (enc_key cfg k) -> key_len_ok (enc_key cfg k) ->
+  wfb k -> plain (enc_key cfg k) -> key_len_ok (enc_key cfg k) ->
   mk_writer cfg names kind k chunks = Some w -> writer_started cfg w.
 Proof.
-  intros cfg names kind k chunks w P L M. unfold mk_writer in M.
+  intros cfg names kind k chunks w WF P L M. unfold mk_writer in M.
   destruct (path_for_key cfg k) as [d|] eqn:E; inversion M; subst; clear M.
   unfold writer_started. simpl. split; auto. split; eauto. split; auto.
 Qed.
@@ -90,7 +90,7 @@ Lemma mk_aborter_started : forall cfg names chunks, writer_started cfg (mk_abort
 Proof. intros. unfold writer_started, mk_aborter. simpl. split; auto. split; eauto. Qed.
 
 Theorem crash_atomic : forall cfg ws sched,
-  (forall k k', enc_key cfg k = enc_key cfg k' -> k = k') ->
+  (forall k k', wfb k -> wfb k' -> enc_key cfg k = enc_key cfg k' -> k = k') ->
   Forall (writer_started cfg) ws ->
   forall k p, keypath cfg k p ->
     let f := fst (exec (fs_fresh cfg) ws sched) in
@@ -101,14 +101,14 @@ Proof.
   { apply Forall_forall. intros w Hin. rewrite Forall_forall in F. destruct (F w Hin) as [B [T D]].
     split; auto. split; auto. destruct (we_dest (w_env w)) eqn:X; auto. split; auto.
     exists w. repeat split; auto. congruence. }
-  pose proof (exec_inv cfg EI (committed ws) sched _ _ (inv_initial cfg _ ws R)) as I.
+  pose proof (exec_inv cfg (committed ws) sched _ _ (inv_initial cfg _ ws R)) as I.
   eapply inv_atomic; eauto.
 Qed.
 
 (* the same from any state of the store that satisfies the invariant, e.g. after an earlier crash:
    [C0] is what was committed before *)
 Theorem crash_atomic_from : forall cfg C0 f0 ws0 ws sched,
-  (forall k k', enc_key cfg k = enc_key cfg k' -> k = k') ->
+  (forall k k', wfb k -> wfb k' -> enc_key cfg k = enc_key cfg k' -> k = k') ->
   inv cfg C0 f0 ws0 ->
   Forall (writer_started cfg) ws ->
   forall k p, keypath cfg k p ->
@@ -130,7 +130,7 @@ Proof.
       + unfold staged. rewrite T. simpl. auto.
     - intros i j wi wj st _ Ni _ Si _. apply nth_error_In in Ni. rewrite Forall_forall in F.
       destruct (F wi Ni) as [_ [[tr T] _]]. rewrite T in Si. discriminate. }
-  pose proof (exec_inv cfg EI C sched _ _ I1) as I.
+  pose proof (exec_inv cfg C sched _ _ I1) as I.
   exact (inv_atomic cfg EI C _ _ I k p K).
 Qed.
 
@@ -142,12 +142,12 @@ Proof.
 Qed.
 
 (* when the escaping function is applied, every non-empty key is such a key *)
-Lemma escaping_keypath : forall cfg k p, escaping cfg -> k <> [] -> key_len_ok (enc_key cfg k) ->
+Lemma escaping_keypath : forall cfg k p, escaping cfg -> wfb k -> k <> [] -> key_len_ok (enc_key cfg k) ->
   path_for_key cfg k = Some p -> keypath cfg k p.
-Proof. intros cfg k p E N L P. split; [apply esc_plain; auto|]. split; auto. Qed.
+Proof. intros cfg k p E WF N L P. split; auto. split; [apply esc_plain; auto|]. split; auto. Qed.
 
-Lemma escaping_enc_inj : forall cfg, escaping cfg -> forall k k', enc_key cfg k = enc_key cfg k' -> k = k'.
-Proof. intros cfg [Q E] k k' H. unfold enc_key in H. rewrite Q in H. apply (esc_inj _ E). auto. Qed.
+Lemma escaping_enc_inj : forall cfg, escaping cfg -> forall k k', wfb k -> wfb k' -> enc_key cfg k = enc_key cfg k' -> k = k'.
+Proof. intros cfg [Q E] k k' W W' H. unfold enc_key in H. rewrite Q in H. apply (esc_inj _ E); auto. Qed.
 
-Lemma no_escape_enc_inj : forall cfg, q_no_escape cfg = true -> forall k k', enc_key cfg k = enc_key cfg k' -> k = k'.
-Proof. intros cfg Q k k' H. unfold enc_key in H. rewrite Q in H. auto. Qed.
+Lemma no_escape_enc_inj : forall cfg, q_no_escape cfg = true -> forall k k', wfb k -> wfb k' -> enc_key cfg k = enc_key cfg k' -> k = k'.
+Proof. intros cfg Q k k' _ _ H. unfold enc_key in H. rewrite Q in H. auto. Qed.
